@@ -95,7 +95,9 @@ class FileProxy:
     def write(self, data):
         self._h.release_state()  # the state has been read once the first chunk is written
         self._h.ev("write")
-        return self._f.write(data)
+        r = self._f.write(data)
+        self._h.after("write")
+        return r
 
     def __enter__(self):
         self._f.__enter__()
@@ -108,7 +110,10 @@ class FileProxy:
             except BaseException:
                 self._f.__exit__(None, None, None)  # the descriptor is closed although close "failed"
                 raise
-        return self._f.__exit__(et, ev, tb)
+        r = self._f.__exit__(et, ev, tb)
+        if et is None:
+            self._h.after("close")
+        return r
 
     def close(self):
         if not self._f.closed:
@@ -168,6 +173,10 @@ class Hooks:
             self.tls.holds = True
         self._log(j, point, "ok")
 
+    def after(self, point):
+        """The wrapped call has returned: a further place where a job can be parked (no event)."""
+        self.on_event(self.job(), point + "+")
+
     def _mine(self, path) -> bool:
         if self.job() is None:
             return False
@@ -185,12 +194,17 @@ class Hooks:
         if self.job() is None or d is None or os.path.abspath(d) != self.dir:
             return self._orig["ntf"](*a, **kw)
         self.ev("mktemp")
-        return FileProxy(self, self._orig["ntf"](*a, **kw))
+        f = FileProxy(self, self._orig["ntf"](*a, **kw))
+        self.after("mktemp")
+        return f
 
     def _replace(self, src, dst, *a, **kw):
-        if self._mine(dst):
-            self.ev("replace")
-        return self._orig["replace"](src, dst, *a, **kw)
+        if not self._mine(dst):
+            return self._orig["replace"](src, dst, *a, **kw)
+        self.ev("replace")
+        r = self._orig["replace"](src, dst, *a, **kw)
+        self.after("replace")
+        return r
 
     def _remove(self, path, *a, **kw):
         if self._mine(path):
@@ -203,9 +217,12 @@ class Hooks:
         return self._orig["unlink"](path, *a, **kw)
 
     def _exists(self, path):
-        if self._mine(path) and os.path.basename(os.fspath(path)) != STATE_FILE:
-            self.ev("exists")
-        return self._orig["exists"](path)
+        if not (self._mine(path) and os.path.basename(os.fspath(path)) != STATE_FILE):
+            return self._orig["exists"](path)
+        self.ev("exists")
+        r = self._orig["exists"](path)
+        self.after("exists")
+        return r
 
     def wrap_encoder(self, enc):
         """Report the moment encoder.persist starts reading the state (instance attribute only)."""
@@ -216,9 +233,11 @@ class Hooks:
                 return orig(fp, state)
             try:
                 self.ev("snapshot")
-                return orig(fp, state)
+                r = orig(fp, state)
             finally:
                 self.release_state()
+            self.after("snapshot")
+            return r
 
         enc.persist = persist
         return orig
@@ -331,7 +350,7 @@ def _pyhap():
 
 def mk_ops(rng, n_initial: int, n_ops: int) -> Tuple[List[dict], List[dict]]:
     """Initial pairings and a list of pairing changes (pair a new controller / unpair a present one)."""
-    present: List[str] = []
+    present: Dict[str, int] = {}  # id -> permission byte, as the accessory will hold them
 
     def new_pair(admin=None):
         u = str(uuid.UUID(int=rng.getrandbits(128), version=4))
@@ -344,16 +363,19 @@ def mk_ops(rng, n_initial: int, n_ops: int) -> Tuple[List[dict], List[dict]]:
     for i in range(n_initial):
         p = new_pair(admin=1 if i == 0 else None)
         initial.append(p)
-        present.append(p["id"])
+        present[p["id"]] = p["perm"]
     ops = []
     for _ in range(n_ops):
         if present and rng.random() < 0.3:
-            u = present.pop(rng.randrange(len(present)))
+            u = rng.choice(sorted(present))
+            del present[u]
+            if not any(v & 1 for v in present.values()):
+                present.clear()  # removing the last admin removes every pairing
             ops.append({"op": "unpair", "id": u})
         else:
             p = new_pair(admin=1 if not present else None)
             ops.append(p)
-            present.append(p["id"])
+            present[p["id"]] = p["perm"]
     return initial, ops
 
 
@@ -944,9 +966,12 @@ def fault_stream(ctx: Ctx, model_cases: list):
 
 def pause_points(nwrites: int) -> List[Optional[list]]:
     mid = max(2, nwrites // 2)
+    # "x" = about to perform call x; "x+" = call x has just returned (differs from the next "before"
+    # point exactly when something like a lock acquisition sits between the two calls)
     return [
-        ["begin", 1], ["mktemp", 1], ["snapshot", 1], ["write", 1], ["write", mid], ["close", 1],
-        ["replace", 1], ["exists", 1], None,
+        ["begin", 1], ["mktemp", 1], ["mktemp+", 1], ["snapshot", 1], ["write", 1], ["write+", 1], ["write", mid],
+        ["snapshot+", 1], ["close", 1], ["close+", 1], ["replace", 1], ["replace+", 1], ["exists", 1], ["exists+", 1],
+        None,
     ]
 
 
@@ -1048,6 +1073,8 @@ def schedule_stream(ctx: Ctx, model_cases: list):
                 if q is None and reverse:
                     continue
                 key = json.dumps(p)
+                if ctx.quick and q is not None and any(f.signature == "C15:file-stale-after-interleaved-saves" for f in ctx.failures):
+                    continue  # a failing schedule is already in hand: keep the quick run short
                 if ctx.quick and key in blocked_p:
                     st.hit("outcome", "sched:skipped-equivalent(job1-blocked-until-job0-ends)")
                     continue
